@@ -10,7 +10,9 @@ import (
 func algorithmCipher(a ipmi.ConfidentialityAlgorithm, g AdditionalKeyMaterialGenerator) (layerexts.SerializableDecodingLayer, error) {
 	switch a {
 	case ipmi.ConfidentialityAlgorithmNone:
-		return nil, nil
+		// sessions always send encrypted packets, and a nil layer cannot be
+		// registered with the decoder
+		return nil, fmt.Errorf("sessions without confidentiality are not supported")
 	case ipmi.ConfidentialityAlgorithmAESCBC128:
 		key := [16]byte{}
 		copy(key[:], g.K(2))
